@@ -137,6 +137,14 @@ func outcomeTerm(resp *hx.Msg, err error) string {
 	return fmt.Sprintf("(Ok %s)", hx.Z(int64(resp.Count)))
 }
 
+// fakeSS is the stream a transport would hand to a stream handler
+type fakeSS struct {
+	grpc.ServerStream
+	ctx context.Context
+}
+
+func (f fakeSS) Context() context.Context { return f.ctx }
+
 type nullStream struct{ ctx context.Context }
 
 func (n nullStream) SetHeader(map[string][]string) error { return nil }
@@ -258,12 +266,50 @@ func runC16(o *hx.Out, r *hx.Rand, thorough bool) {
 		if after := descSnapshot(base); after != before {
 			o.Violate("InterceptServer modified the description it was given", desc, after, before)
 		}
+		// the SAME decorated description dispatched again by another carrier with its own (or no)
+		// transport-level interceptor: nothing of the first dispatch may stick to it
+		for rep := 0; rep < 2; rep++ {
+			var transport2 *script
+			var tu2 grpc.UnaryServerInterceptor
+			if r.Chance(70) {
+				t := randScript(int64(2 + rep))
+				transport2, tu2 = &t, t.unary(l)
+			}
+			l.take()
+			resp, err = du.Methods[0].Handler(svc, withVal(context.Background(), ctx0), func(m interface{}) error { m.(*hx.Msg).Count = int32(req); return nil }, tu2)
+			rm = nil
+			if resp != nil {
+				rm = resp.(*hx.Msg)
+			}
+			descb := map[string]interface{}{"carrier": "direct, dispatched again with another transport interceptor", "svc": svcName, "transport": transport2, "decor_innermost_first": decor, "ctx": ctx0, "req": req}
+			o.Case("unary_direct_again", fmt.Sprintf("UCase \"direct\" %s \"U\" %s %s %s %s %s %s", hx.Str(svcName), optTerm(transport2), hx.List(decTerms), hx.Z(ctx0), hx.Z(req), outcomeTerm(rm, err), hx.List(l.take())), descb)
+		}
 
 		// carrier 2: registry decorated with WithInterceptor (outermost registry applies first = innermost)
 		hm := grpchan.HandlerMap{}
 		var reg grpc.ServiceRegistrar = hm
+		// each registry view intercepts unary calls, streams or both
+		masks := make([]int, len(decor))
+		var decU, decS []string
+		for i := range decor {
+			masks[i] = r.Intn(3) // 0 both, 1 unary only, 2 stream only
+			if masks[i] != 2 {
+				decU = append(decU, decor[i].coq())
+			}
+			if masks[i] != 1 {
+				decS = append(decS, decor[i].coq())
+			}
+		}
 		for i := len(decor) - 1; i >= 0; i-- {
-			reg = grpchan.WithInterceptor(reg, decor[i].unary(l), decor[i].stream(l))
+			var ui grpc.UnaryServerInterceptor
+			var sti grpc.StreamServerInterceptor
+			if masks[i] != 2 {
+				ui = decor[i].unary(l)
+			}
+			if masks[i] != 1 {
+				sti = decor[i].stream(l)
+			}
+			reg = grpchan.WithInterceptor(reg, ui, sti)
 		}
 		reg.RegisterService(base, svc)
 		rd, _ := hm.QueryService(svcName)
@@ -273,9 +319,15 @@ func runC16(o *hx.Out, r *hx.Rand, thorough bool) {
 		if resp != nil {
 			rm = resp.(*hx.Msg)
 		}
-		desc2 := map[string]interface{}{"carrier": "registry", "svc": svcName, "transport": transport, "decor_innermost_first": decor, "ctx": ctx0, "req": req}
+		desc2 := map[string]interface{}{"carrier": "registry", "svc": svcName, "transport": transport, "decor_innermost_first": decor, "views_0both_1unary_2stream": masks, "ctx": ctx0, "req": req}
 		// WithInterceptor(reg_k ... ) registers InterceptServer(desc, u_k) into the inner registry: decor[0] is applied first
-		o.Case("unary_registry", fmt.Sprintf("UCase \"registry\" %s \"U\" %s %s %s %s %s %s", hx.Str(svcName), optTerm(transport), hx.List(decTerms), hx.Z(ctx0), hx.Z(req), outcomeTerm(rm, err), hx.List(l.take())), desc2)
+		o.Case("unary_registry", fmt.Sprintf("UCase \"registry\" %s \"U\" %s %s %s %s %s %s", hx.Str(svcName), optTerm(transport), hx.List(decU), hx.Z(ctx0), hx.Z(req), outcomeTerm(rm, err), hx.List(l.take())), desc2)
+		// a stream method of the same registered description, dispatched the way a transport does
+		l.take()
+		serr := rd.Streams[si].Handler(svc, fakeSS{ctx: withVal(context.Background(), ctx0)})
+		desc2s := map[string]interface{}{"carrier": "registry", "svc": svcName, "stream": kind, "decor_innermost_first": decor, "views_0both_1unary_2stream": masks, "ctx": ctx0}
+		o.Case("stream_registry", fmt.Sprintf("SCase \"registry\" %s %s %s %s None %s %s %s %s", hx.Str(svcName), hx.Str(kind), hx.B(flags[kind][0]), hx.B(flags[kind][1]),
+			hx.List(decS), hx.Z(ctx0), outcomeTerm(&hx.Msg{}, serr), hx.List(l.take())), desc2s)
 
 		// carrier 3: in-process channel, transport-level interceptors on the channel
 		ipc := &inprocgrpc.Channel{}
